@@ -40,6 +40,7 @@ type FuncFacts struct {
 	Locks          []string   `json:"locks,omitempty"`
 	ParamWrites    []int      `json:"param_writes,omitempty"`
 	Go             bool       `json:"spawns_goroutine,omitempty"`
+	SigContent     bool       `json:"reads_signature_content,omitempty"` // uses Certificate.Signature other than through len()
 
 	fn          *ssa.Function
 	paramWrites map[int]bool
@@ -186,6 +187,10 @@ func rootOfD(v ssa.Value, depth int, seen map[ssa.Value]bool) root {
 	case *ssa.Alloc:
 		return root{kind: "local"}
 	case *ssa.Call:
+		if bi, ok := x.Common().Value.(*ssa.Builtin); ok && bi.Name() == "append" && len(x.Common().Args) > 0 {
+			// the result may share the backing array of the first argument
+			return down(x.Common().Args[0])
+		}
 		return root{kind: "call"}
 	case *ssa.Const:
 		return root{kind: "const"}
@@ -377,6 +382,9 @@ func analyseFunc(ff *FuncFacts) {
 			case *ssa.FieldAddr:
 				if r := rootOf(x); r.kind == "obj" && objTypeName(x.X.Type()) != "" {
 					ff.add("objReads", r.name)
+					if r.name == "Certificate.Signature" && !lenOnly(x) {
+						ff.SigContent = true
+					}
 				}
 			case *ssa.Field:
 				if r := rootOf(x); r.kind == "obj" && objTypeName(x.X.Type()) != "" {
@@ -415,7 +423,11 @@ func analyseFunc(ff *FuncFacts) {
 					recordWrite(ff, rootOf(c.Args[0]), "copy")
 				case "append":
 					if r := rootOf(c.Args[0]); r.kind == "obj" {
-						ff.add("objAppends", r.name)
+						if resliced(c.Args[0], map[ssa.Value]bool{}) {
+							ff.add("objWrites", r.name+" (append to a re-slice)")
+						} else {
+							ff.add("objAppends", r.name)
+						}
 					} else if r.kind == "global" && !ff.IsInit {
 						ff.add("globalsWritten", r.name+" (append)")
 					}
@@ -592,7 +604,7 @@ func footprint(r *Registration, roots []*ssa.Function) {
 	for _, f := range roots {
 		visit(f.String())
 	}
-	sets := map[string]map[string]bool{"r": {}, "w": {}, "m": {}, "gr": {}, "gw": {}}
+	sets := map[string]map[string]bool{"r": {}, "w": {}, "m": {}, "gr": {}, "gw": {}, "oa": {}}
 	for _, n := range order {
 		ff := facts.Funcs[n]
 		for _, x := range ff.ObjReads {
@@ -610,7 +622,14 @@ func footprint(r *Registration, roots []*ssa.Function) {
 		for _, x := range ff.GlobalsWritten {
 			sets["gw"][x+" in "+short(n)] = true
 		}
+		for _, x := range ff.ObjAppends {
+			sets["oa"][x+" in "+short(n)] = true
+		}
+		if ff.SigContent {
+			r.SigContent = true
+		}
 	}
+	r.ObjAppends = sorted(sets["oa"])
 	r.Reads = sorted(sets["r"])
 	r.Writes = sorted(sets["w"])
 	r.ObjMethods = sorted(sets["m"])
@@ -716,4 +735,60 @@ func loopStatuses(sa *statusAnalysis, exec *ssa.Function) map[string][]int {
 		}
 	}
 	return out
+}
+
+// lenOnly: every use of the field address is a load whose value only feeds len().
+func lenOnly(addr ssa.Value) bool {
+	refs := addr.Referrers()
+	if refs == nil {
+		return false
+	}
+	for _, ref := range *refs {
+		ld, ok := ref.(*ssa.UnOp)
+		if !ok || ld.Op.String() != "*" {
+			return false
+		}
+		lrefs := ld.Referrers()
+		if lrefs == nil {
+			return false
+		}
+		for _, u := range *lrefs {
+			switch c := u.(type) {
+			case *ssa.Call:
+				if bi, ok := c.Common().Value.(*ssa.Builtin); ok && bi.Name() == "len" {
+					continue
+				}
+				return false
+			case *ssa.DebugRef:
+				continue
+			default:
+				return false
+			}
+		}
+	}
+	return true
+}
+
+// resliced: does the slice value come (through phis and earlier appends) from a re-slice expression s[i:j]
+// of an object-rooted slice? Appending to such a value overwrites elements the object still shows.
+func resliced(v ssa.Value, seen map[ssa.Value]bool) bool {
+	if seen[v] {
+		return false
+	}
+	seen[v] = true
+	switch x := v.(type) {
+	case *ssa.Slice:
+		return rootOf(x.X).kind == "obj"
+	case *ssa.Phi:
+		for _, e := range x.Edges {
+			if resliced(e, seen) {
+				return true
+			}
+		}
+	case *ssa.Call:
+		if bi, ok := x.Common().Value.(*ssa.Builtin); ok && bi.Name() == "append" && len(x.Common().Args) > 0 {
+			return resliced(x.Common().Args[0], seen)
+		}
+	}
+	return false
 }
